@@ -188,7 +188,7 @@ def build_sources(tier):
                 out.append(('/'.join(n for n, _ in seq) + '/after-warning/' + order + '/' + ek, '\n'.join(lines) + '\n', 'stdin', errline, None))
     # errors inside included files
     for seq in [[c] for c in cons[:9]]:
-        for hdr, hline in (('h_bad_syntax.h', 2), ('h_bad_cpp.h', 3), ('h_bad_sem.h', 2), ('h_nested_bad.h', None)):
+        for hdr, hline in (('h_bad_syntax.h', 2), ('h_bad_cpp.h', 3), ('h_bad_sem.h', 2), ('h_error.h', 3), ('h_bad_codegen.h', 2), ('h_nested_bad.h', None)):
             lines = []
             for nm, ls in seq:
                 uid += 1; lines += [l.replace('%d', str(uid)) for l in ls]
@@ -200,11 +200,50 @@ def build_sources(tier):
     return out
 
 
+SITE_DECLS = ['char hi, hj; char *hp; short hw; char ha[4];', 'void hv() { }', 'char hf(char x) { return x; }', 'void interrupt hirq() { hi = 1; }']
+ERR_SITES = [
+    ('mult', ['hi = hi * hj;']), ('div', ['hi = hi / hj;']), ('index-x', ['hp[X] = 1;']), ('void-value', ['hi = hv();']), ('shr16', ['hi = hw >> 3;']), ('shift-var', ['hi = hi << hj;']), ('shift-neg', ['hi = hi << -1;']),
+    ('subscript-var', ['hi[2] = 1;']), ('break-outside', ['break;']), ('continue-outside', ['continue;']), ('strobe-var', ['strobe(hi);']), ('sizeof-expr', ['hi = sizeof(hi + 1);']), ('deref-var', ['hi = *hi;']),
+    ('addr-short', ['hp = &hw;']), ('too-few', ['hi = hf();']), ('too-many', ['hi = hf(1, 2);']), ('call-var', ['hi();']), ('unknown-fn', ['undefined_fn();']), ('call-irq', ['hirq();']), ('csleep', ['csleep(1);']),
+    ('return-value', ['return 1;']), ('neg-void', ['hi = -hv();']), ('while-void', ['while (hv()) { hj = 1; }']), ('if-void', ['if (hv()) hj = 1;']), ('tern-missing', ['hi = hj ? 1 : hv();']),
+    ('switch-group-index', ['switch (hp[X]) {', 'case 1:', 'case 2:', '  hi = 1;', '}']), ('switch-index', ['switch (hp[X]) {', 'case 1:', '  hi = 1;', '}']), ('switch-group-void', ['switch (hv()) {', 'case 1: case 2:', '  hi = 1;', '}']),
+    ('in-for', ['for (hj = 0; hj < 3; hj++) {', '  hi = hi * hj;', '}'], 1), ('in-else', ['if (hi) {', '  hi = 1;', '} else {', '  hi = hi / hj;', '}'], 3), ('in-while-cond', ['while (hi * hj) {', '  hi = 1;', '}'], 0),
+    ('in-do-cond', ['do {', '  hi = 1;', '} while (hi * hj);']), ('in-for-update', ['for (hj = 0; hj < 3; hj = hj * hi) {', '  hi = 1;', '}'], 0), ('in-switch-case', ['switch (hi) {', 'case 1:', '  hi = 1;', '  break;', 'case 2:', '  hi = hi * hj;', '}'], 5),
+    ('in-nested-block', ['{', '  {', '    hp[X] = 1;', '  }', '}'], 2), ('in-call-arg', ['hi = hf(', '  hi * hj', ');']), ('complex', ['hi = (hi + hj) + ((hi + hj) + ((hi + hj) + ((hi + hj) + (hi + (hj + (hi + hj))))));']),
+    ('second-of-two', ['hi = 1; hj = hi * hj;']), ('after-label', ['again:', '  hi = hi * hj;']), ('local-init', ['{', '  char l = hv();', '  hi = l;', '}'], 1),
+]
+
+
+def site_sources():
+    """a statement the generator rejects, at a known place of main: the error must lie inside the statement's lines (the generator
+    attributes an error to the statement it is generating: the condition of a do-while is reported on the `do` line, a labelled
+    statement on its label - any line of the statement is accepted), and exactly on the line of the offending NESTED statement
+    where there is one"""
+    out = []
+    pres = [('plain', []), ('comment3', ['/* three', '   lines', '   end */']), ('define-blank', ['#define HK 3', '']), ('splice', ['char hs \\', ' ;']), ('if0', ['#if 0', 'garbage ((', '#endif'])]
+    for ent in ERR_SITES:
+        name, stmt = ent[0], ent[1]
+        exact = ent[2] if len(ent) > 2 else None
+        for pn, pre in pres:
+            for fn in ('main', 'func'):
+                lines = list(SITE_DECLS) + pre
+                lines += ['void main()' if fn == 'main' else 'void worker()', '{', '  hj = 2;']
+                first = len(lines) + 1
+                lines += ['  ' + l for l in stmt]
+                last = len(lines)
+                lines += ['  hj = 3;', '}']
+                if fn == 'func': lines += ['void main() { worker(); }']
+                ok = {first + exact} if exact is not None else set(range(first, last + 1))
+                out.append(('site/%s/%s/%s' % (name, pn, fn), '\n'.join(lines) + '\n', ok))
+    return out
+
+
 def write_headers(d):
     os.makedirs(d, exist_ok=True)
     files = {'h_ok.h': 'char from_header_a;\nchar from_header_b;\n', 'a_ok.inc': '; assembler\n\tNOP\n',
              'h_bad_syntax.h': 'char hb_ok;\nchar hb_broken = ;\n', 'h_bad_cpp.h': 'char hc_ok;\n// c\n#if UNDEFINED_IN_HEADER\n#endif\n',
-             'h_bad_sem.h': 'char hs_dup;\nchar hs_dup;\n', 'h_nested_bad.h': 'char hn_ok;\n#include "h_bad_syntax.h"\n'}
+             'h_bad_sem.h': 'char hs_dup;\nchar hs_dup;\n', 'h_error.h': 'char he_ok;\n/* c */\n#error stop here\n',
+             'h_bad_codegen.h': 'char hg_a, hg_b;\nvoid hg_f() { hg_a = hg_a * hg_b; }\n', 'h_nested_bad.h': 'char hn_ok;\n#include "h_bad_syntax.h"\n'}
     for n, t in files.items(): open(os.path.join(d, n), 'w').write(t)
 
 
@@ -224,6 +263,7 @@ def check_end_to_end(rep, tier, st):
         if c.status != 'err' or not c.err or 'line' not in c.err:
             rep.violation('loc.noerr.' + pid, 'error source %s: expected a located error, got %s %s' % (pid, c.status, c.msg), dict(kind='loc', source=s, args=['-I', d], expect=[f, l, inc], got=[c.status, c.msg])); continue
         e = c.err
+        check_display(rep, st, pid, s, d, c)
         gotf = os.path.basename(e['filename']); gotl = e['line']; goti = (os.path.basename(e['included_in'][0]), e['included_in'][1]) if e.get('included_in') else None
         # a spliced logical line may be reported on any of its physical lines
         ok_lines = {l}
@@ -232,6 +272,44 @@ def check_end_to_end(rep, tier, st):
         ek = pid.split('/')[-1]
         rep.violation('loc.%s' % pid, 'error source %s: error is at %s:%d%s, reported at %s:%d%s (%s)' % (pid, f, l, (' included in %s:%d' % tuple(inc)) if inc else '', gotf, gotl, (' included in %s:%d' % goti) if goti else '', e.get('msg', '')[:60]),
                       dict(kind='loc', source=s, args=['-I', d], expect=[f, l, inc], got=[gotf, gotl, goti, e.get('msg')]))
+
+
+DISPLAY_RE = re.compile(r' on line (\d+) of (.*?)(?: \(included in (.*) on line (\d+)\))?$', re.S)
+
+
+def check_sites_and_display(rep, tier, st):
+    d = os.path.join(common.CACHE, 'c06_inc')
+    S = site_sources()
+    if tier == 'quick': S = [x for x in S if x[0].endswith('/main') or common_pick(x[0], 40)]
+    R = common.compile_many([('s%d' % k, ['-I', d], s) for k, (pid, s, ok) in enumerate(S)])
+    for k, (pid, s, ok) in enumerate(S):
+        c = R['s%d' % k]
+        if c.status in ('panic', 'timeout', 'crash'):
+            rep.violation('loc.crash.' + pid, 'error site %s: the compiler %s instead of reporting a located error: %s' % (pid, c.status, c.msg), dict(kind='loc', source=s, args=['-I', d], expect=['stdin', sorted(ok), None], got=[c.status, c.msg])); continue
+        if c.status != 'err' or not c.err or 'line' not in c.err: st['sites_accepted'] += 1; continue      # the statement is accepted (or the error has no location): nothing to locate
+        st['sites'] += 1
+        e = c.err
+        if os.path.basename(e['filename']) == 'stdin' and e['line'] in ok and not e.get('included_in'): st['sites_located'] += 1
+        else:
+            rep.violation('loc.%s' % pid, 'error site %s: the rejected statement is on line(s) %s, the error is reported at %s:%d (%s)' % (pid, sorted(ok), os.path.basename(e['filename']), e['line'], e.get('msg', '')[:70]),
+                          dict(kind='loc', source=s, args=['-I', d], expect=['stdin', sorted(ok), None], got=[os.path.basename(e['filename']), e['line'], e.get('included_in'), e.get('msg')]))
+
+
+def common_pick(pid, pct):
+    import hashlib
+    return int(hashlib.md5(pid.encode()).hexdigest(), 16) % 100 < pct
+
+
+def check_display(rep, st, pid, s, d, c):
+    """the rendered message (what a user reads) names the same place as the structured fields"""
+    e = c.err
+    m = DISPLAY_RE.search(c.msg or '')
+    st['displays'] += 1
+    if not m:
+        rep.violation('display.%s' % pid, 'error source %s: the rendered message %r does not name a line and a file' % (pid, c.msg), dict(kind='loc', source=s, args=['-I', d], expect=None, got=[c.status, c.msg])); return
+    want = (str(e['line']), e['filename'], e['included_in'][0] if e.get('included_in') else None, str(e['included_in'][1]) if e.get('included_in') else None)
+    if m.groups() != want:
+        rep.violation('display.%s' % pid, 'error source %s: the rendered message %r names %s, the error structure says %s' % (pid, c.msg, m.groups(), want), dict(kind='loc', source=s, args=['-I', d], expect=list(want), got=[c.status, c.msg]))
 
 
 def replay_offsets(rep, st):
@@ -260,6 +338,7 @@ def run(tier):
     check_offsets(rep, mir, tier, st)
     replay_offsets(rep, st)
     check_end_to_end(rep, tier, st)
+    check_sites_and_display(rep, tier, st)
     rep.cov = dict(explanation='(a) syntax_error, compiler_error and warning executed from the rustc MIR of the current tree on a bounded symbolic text (length 0..L, each character symbolic over {x, newline}) with a symbolic offset '
                    'and an abstract line table: z3 decides that the line-table index equals the number of newlines strictly before the offset and is in range, for every text and offset; (b) end-to-end: every ordered pair of '
                    'line-shifting constructs followed by each kind of error, and errors inside (nested) included files: reported file/line/included-in compared with the position the generator knows',
